@@ -10,7 +10,6 @@ import (
 	"github.com/hashicorp/hcl-lang/decoder/internal/schemahelper"
 	"github.com/hashicorp/hcl-lang/lang"
 	"github.com/hashicorp/hcl-lang/schema"
-	"github.com/hashicorp/hcl/v2"
 	"github.com/hashicorp/hcl/v2/hclsyntax"
 )
 
@@ -22,7 +21,7 @@ func (d *PathDecoder) SemanticTokensInFile(ctx context.Context, filename string)
 		return nil, err
 	}
 
-	body, err := d.bodyForFileAndPos(filename, f, hcl.InitialPos)
+	body, err := d.bodyForFile(filename, f)
 	if err != nil {
 		return nil, err
 	}
